@@ -17,6 +17,7 @@ from ..core import Ctx, Rule
 from ..dataflow import depends_on, derived_names, guards_of, parent_map
 from ..facts import ShapeError, call_name, calls_in, dotted, kwarg, norm, walk_no_nested
 from ..tables import Inst, Opaque, decide
+from .pairing_rules import analysis_pairing
 
 COPY = 'fpy2/transform/copy_propagate.py'
 SUBST = 'fpy2/transform/subst_var.py'
@@ -379,6 +380,7 @@ RULES = [
     Rule('C07.G1', 'copy propagation consults the reaching definition of the source; substitution keyed by definition', g1_copy_propagation, 6, 'G'),
     Rule('C07.G2', 'list values are recorded / materialised only with a store-or-alias fact', g2_heap_values, 2, 'G,S'),
     Rule('C07.G3', 'dead code: every removal under an accepted justification; unused = no uses + no live phi + pure', g3_dead_code, 14, 'G'),
+    Rule('C07.P1', 'an analysis handed to a simplification pass along with a function is the analysis of that function', analysis_pairing((SUBST, DCE, COPY, FOLD, 'fpy2/transform/simplify_if.py'), 3), 3, 'P'),
     Rule('C07.X1', 'purity defaults: unknown, foreign, impure callees and parameter stores are impure', x1_purity, 9, 'X'),
     Rule('C07.G4', 'folding only under a statically known context; constructors under REAL', g4_fold_context, 11, 'G'),
     Rule('C07.T1', 'literal forms of folded values are exact; fold keyed by expression; simplify iterates to a fixed point', t1_literal_forms, 11, 'T'),
@@ -388,6 +390,7 @@ RULES = [
 from ..selftest import Mutant  # noqa: E402
 
 MUTANTS = [
+    Mutant('dce-analysis-of-another-function', DCE, "        func, eliminated = _DeadCodeEliminate(func, def_use).apply()", "        func, eliminated = _DeadCodeEliminate(SimplifyIf.apply(func), def_use).apply()", 'C07.P1'),
     Mutant('constants-merge-signed-zeros', 'fpy2/analysis/partial_eval.py', "        return a if _same_constant(a, b) else _TOP", "        return a if a == b else _TOP", 'C07.D1',
            'finding F30 before its repair'),
     Mutant('unknown-loop-entry-is-the-unit', 'fpy2/analysis/partial_eval.py', "                lhs = self.by_def.get(self.def_use.defs[phi.lhs], _TOP)\n                rhs = self.by_def.get(self.def_use.defs[phi.rhs], _TOP)\n                new",
